@@ -145,6 +145,28 @@ CHECKS.update({
              'A-ISO8601, fixtures.Fixture.addCleanup; OverflowError at the '
              'ends of the datetime range is outside the model; pyvc, z3.',
         ref='DESIGN.md section 4 C12'),
+    'C09': dict(
+        text='save_and_reraise_exception proved for every handler body built '
+             'from {no-op, raise-and-catch an inner exception, reraise '
+             'off/on, nested context, raise new} two actions deep x initial '
+             'flag x exception kinds (plain, mandatory constructor args, '
+             'chained, BaseException): same object re-raised with its '
+             'original traceback prefix, nothing raised when switched off, '
+             'new exception propagates and the original is logged exactly '
+             'when due; capture/force_reraise contracts (RuntimeError when '
+             'nothing active/captured, captured object re-raised, state '
+             'cleared); exception_filter as object / decorated function / '
+             'bound method, as context manager and direct call with own / '
+             'other / no active exception; remove_path_on_error (removal '
+             'once, then the same object; removal failure propagates and the '
+             'original is logged; BaseException passes); raise_with_cause. '
+             'Bounded stand-in on the real interpreter: all bodies of length '
+             '<= 3 incl. direct force_reraise, real tracebacks frame by '
+             'frame, real file system.',
+        note='A-RAISE (the interpreter semantics of raise / with / '
+             'sys.exc_info / traceback growth are a model in pyvc), A-CTXLIB '
+             '(contextlib.contextmanager protocol); pyvc, z3.',
+        ref='DESIGN.md section 4 C09'),
     'C10': dict(
         text='(1) Regular-language lemmas (z3 RegLan, translated on every run '
              'from the real pattern strings in UNIT_SYSTEM_INFO via CPython\'s '
